@@ -55,6 +55,8 @@ func init() {
 	props["C02"] = propInfo{Engine: "stepsim", Level: "exploration", Rule: fmt.Sprintf(stepRule, "at least two step commands were executed"), QuickS: 20, ThoroughS: 600}
 	props["C03"] = propInfo{Engine: "stepsim", Level: "exploration", Rule: fmt.Sprintf(stepRule, "at least two step commands were executed, or a dry-run of a generated DAG"), QuickS: 20, ThoroughS: 600}
 	props["C04"] = propInfo{Engine: "stepsim", Level: "exploration", Rule: fmt.Sprintf(stepRule, "handlers configured, a stop injected, or a DAG precondition scripted"), MustProbes: []string{"exit_handler_ran", "stop_after_last_step"}, QuickS: 20, ThoroughS: 600}
+	props["C05"] = propInfo{Engine: "stepsim", Level: "exploration", Rule: fmt.Sprintf(stepRule, "the stop (socket /stop or SIGTERM at a seeded scheduler step) took effect while the run was alive, or the DAG timeout elapsed with steps running"), MustProbes: []string{"stop_with_live_children", "ignoring_child_at_stop", "repeat_alive_at_stop", "timeout_elapsed", "signal_on_stop_delivered"}, QuickS: 25, ThoroughS: 600}
+	props["C12"] = propInfo{Engine: "stepsim", Level: "exploration", Rule: "one run = a generated DAG of 1-3 steps with a subset of {stdout file, stderr file, output variable}, retries 0-2, scripted byte patterns on stdout/stderr (sizes around 4 KiB / 64 KiB boundaries, seeded chunking, interleaving), exec-style children (bytes through os/exec-like pipes and copy goroutines) or a direct-write executor; files are compared byte-exactly after the run. distinct = distinct schedule signature; non-trivial = some step printed at least one byte", MustProbes: []string{"cfg_retry+stdout", "cfg_stderr+direct", "cfg_plain"}, QuickS: 20, ThoroughS: 600}
 	props["C15"] = propInfo{Engine: "stepsim", Level: "exploration", Rule: fmt.Sprintf(stepRule, "at least two step commands overlapped in time"), MustProbes: []string{"limit_reached", "unlimited_overlap"}, QuickS: 20, ThoroughS: 600}
 }
 
